@@ -589,7 +589,7 @@ namespace avel {
         [[nodiscard]]
         AVEL_FINL Vector operator-() const {
             #if defined(AVEL_SSE2)
-            return Vector{_mm_sub_ps(_mm_setzero_ps(), content)};
+            return Vector{_mm_xor_ps(content, _mm_set1_ps(-0.0f))};
             #endif
 
             #if defined(AVEL_NEON)
